@@ -6123,10 +6123,9 @@ class State:
         assert pot.unraked_amount >= 0
 
         if sum(self.statuses) == 1:
-            assert len(pot.player_indices) == 1
             assert board_index is None and hand_type_index is None
 
-            self.bets[pot.player_indices[0]] += amount
+            self.bets[self.statuses.index(True)] += amount
         else:
             assert board_index is not None and hand_type_index is not None
             assert 0 <= board_index < self.board_count
